@@ -76,6 +76,9 @@ func (n *Nobj) Ping(r int64) {
 
 type OptObj struct{ ID int64 }
 
+// TObj is the object behind three-level names T<r>.P.X.
+type TObj struct{ P *Nobj }
+
 // In is the object behind the three-level call Req.In.K(...).
 type In struct{ h *H }
 
@@ -149,6 +152,9 @@ func (h *H) B(r, p int64) {
 	}
 	if rd := h.sc.Rule(int(r)); rd != nil && int(p) < len(rd.Secs) && (rd.Secs[p].Kind == SecReader || rd.Secs[p].Kind == SecLocObjReader) {
 		fire = 1 // a reader rule always faults: it reads a local it never assigned
+	}
+	if rd := h.sc.Rule(int(r)); rd != nil && int(p) < len(rd.Secs) && rd.Secs[p].Kind == SecArgCount {
+		fire = 1 // a call with too few arguments always faults
 	}
 	if rd := h.sc.Rule(int(r)); rd != nil && int(p) == len(rd.Secs) && rd.Ret == RetUnexp {
 		fire = 1 // returning an unexported field always faults
@@ -278,6 +284,10 @@ func (h *H) Data() map[string]interface{} {
 	if h.sc.NeedKf {
 		d["kf"] = h.K
 	}
+	if h.sc.NeedFf {
+		d["ff"] = h.F
+		d["fc"] = h.C
+	}
 	for _, rd := range h.sc.KeyRules() {
 		pl := h.plan(int64(rd.ID))
 		fk := -1
@@ -322,6 +332,18 @@ func (h *H) Data() map[string]interface{} {
 				d[fmt.Sprintf("VT%d", id)] = fk == SecUnb
 			case SecRangeKey:
 				d[fmt.Sprintf("MM%d", id)] = map[int64]int64{int64(id) + 700: 1}
+			case SecThreeNil, SecIfThreeNil, SecThreeSet:
+				if fk == s.Kind {
+					d[fmt.Sprintf("T%d", id)] = &TObj{}
+				} else if _, ok := d[fmt.Sprintf("T%d", id)]; !ok {
+					d[fmt.Sprintf("T%d", id)] = &TObj{P: &Nobj{X: 1}}
+				}
+			case SecNilMapSet:
+				if fk == SecNilMapSet {
+					d[fmt.Sprintf("NMAP%d", id)] = map[string]int64(nil)
+				} else {
+					d[fmt.Sprintf("NMAP%d", id)] = map[string]int64{}
+				}
 			case SecForRange:
 				if fk == SecForRange {
 					d[fmt.Sprintf("M%d", id)] = int64(5) // not iterable
